@@ -551,6 +551,10 @@ def _literals_of(txt):
         vals.add(1 << int(m.group(1)))
     for m in re.finditer(r"\b2(?:_?(?:u|i)(?:8|16|32|64|128|size))?\s*\.pow\(\s*(\d+)\s*\)", txt):
         vals.add(2 ** int(m.group(1)))
+    # a shift by a literal amount scales by that power of two (`m >> 11`: thresholds at multiples of 2048)
+    for m in re.finditer(r"(?:>>|<<)=?\s*(\d+)(?![\w.])", txt):
+        if 3 <= int(m.group(1)) <= 27:
+            vals.add(1 << int(m.group(1)))
     # a narrow integer type used as a type (`: u16`, `as u8`, `<u16>`) wraps at its width
     for m in re.finditer(r"(?<![\w.])(u|i)(8|16)(?![\w.])", txt):
         vals.add(1 << (int(m.group(2)) - (1 if m.group(1) == "i" else 0)))
